@@ -414,7 +414,7 @@ def _r2_update_translation(run, R2, w, mprops):
   fn = w.fn("useractions.UserActions._updateColumnRecords")
   cfg = fn.cfg
   names = w.action_types()
-  mods = [(n, c) for (n, c, nm) in fn.calls() if nm == "self.doModifyColumn"]
+  mods = [(n, H.norm(w, fn, c)) for (n, c, nm) in fn.calls() if nm == "self.doModifyColumn"]
   if len(mods) != 1 or len(mods[0][1].args) != 3 or not isinstance(mods[0][1].args[2], ast.Name):
     raise AnalysisError("_updateColumnRecords: expected one doModifyColumn(table, col, <name>) call")
   mn, mcall = mods[0]
@@ -562,7 +562,11 @@ def r3_rebuild_and_assert(run, w):
           grew = True
     return ids
   def loop_of(cfg):
-    loops = [n for n in cfg.nodes if n.kind == "for" and text(n.stmt.iter) == fn.fi.params()[1]
+    """The loop over the user actions: a `for` of apply_user_actions itself whose iterable is
+    built from the user_actions parameter (possibly through enumerate(), list(), ...)."""
+    from ..astutil import names_loaded
+    loops = [n for n in cfg.nodes if n.kind == "for" and
+             fn.fi.params()[1] in names_loaded(H.expand(fn, n.stmt.iter))
              and any(n.stmt is x for x in H.stmts_under(fn.node.body))]
     if len(loops) != 1:
       raise AnalysisError("apply_user_actions: loop over the user actions not found")
@@ -622,9 +626,11 @@ def r3_rebuild_and_assert(run, w):
   fetched = {}
   for s in ast.walk(ac.node):
     if isinstance(s, ast.Assign) and isinstance(s.value, ast.Call) and \
-        ac.name(s.value) == "self.fetch_table" and s.value.args and \
-        isinstance(s.value.args[0], ast.Constant) and isinstance(s.targets[0], ast.Name):
-      fetched[s.targets[0].id] = s.value.args[0].value
+        ac.name(s.value) == "self.fetch_table" and isinstance(s.targets[0], ast.Name):
+      fa = H.norm(w, ac, s.value).args
+      if fa and isinstance(fa[0], ast.Constant):
+        fetched[s.targets[0].id] = fa[0].value
+  bsc = [H.norm(w, ac, c) for c in bsc]
   ok = len(bsc) == 1 and len(bsc[0].args) >= 2 and \
       [fetched.get(text(a)) for a in bsc[0].args[:2]] == [TT, TC]
   raises = {n.id for n in ac.cfg.nodes if n.kind == "raise_stmt"}
@@ -754,6 +760,10 @@ VARIANTS = [
    "col_info.get('formula', old.formula),", "col_info.get('formula', old.type),", "C08-R2"),
   ("unset-reversecol-not-translated", U,
    "        else:\n          schema_colinfo['reverseColId'] = None\n", "", "C08-R2"),
+  ("summary-column-rename-not-applied-to-schema", U,
+   "      if has_diff_value(values, 'colId', c.colId):\n        self._do_doc_action(actions.RenameColumn(",
+   "      if has_diff_value(values, 'colId', c.colId) and not c.summarySourceCol:\n        self._do_doc_action(actions.RenameColumn(",
+   "C08-R2"),
   ("col-to-dict-default-skips-reverse", SC,
    "  if col.reverseColId or include_default:", "  if col.reverseColId:", "C08-R2"),
   ("undo-from-new-column", D,
